@@ -31,6 +31,7 @@ class Program:
         self.fn_qname = {}       # decl id -> key in self.functions
         self.records = {}        # qualified name -> {'fields': [(name, type, init_node)], 'node': n, 'bases': [...]}
         self.enums = {}          # qualified name -> {'underlying': type, 'values': [(name, value)]}
+        self.ctors = {}          # record qualified name -> [user-provided CXXConstructorDecl nodes with a body]
         self.fn_decls = {}       # qualified name -> every declaration node (default arguments live on any of them)
         self.globals = {}        # decl id -> (qualified name, node)
         self.exc_parent = dict(STD_EXC)
@@ -96,7 +97,12 @@ class Program:
             self._aliases_raw = getattr(self, '_aliases_raw', {})
             self._aliases_raw[q] = n['type'].get('desugaredQualType', n['type']['qualType'])
             return
-        if k in ('FunctionDecl', 'CXXMethodDecl', 'CXXConstructorDecl'):
+        if k == 'CXXConstructorDecl':
+            owner = '::'.join(scope)
+            if not n.get('isImplicit') and any(c.get('kind') == 'CompoundStmt' for c in n.get('inner', []) or []):
+                self.ctors.setdefault(owner, []).append(n)
+            return
+        if k in ('FunctionDecl', 'CXXMethodDecl'):
             q = self._fn_scope_name(n, scope)
             self.by_id[n['id']] = (n, q)
             has_body = any(c.get('kind') == 'CompoundStmt' for c in n.get('inner', []) or [])
@@ -280,6 +286,9 @@ class FnTranslator:
         if node['kind'] == 'CXXMethodDecl':
             q = node['_q']
             self.owner = q.rsplit('::', 1)[0]
+            if self.is_method and hasattr(unit, 'opaque_record') and '<lambda>' not in q and unit.opaque_record(self.owner):
+                self.is_method = False        # `this` of an unrepresentable class is dropped
+                self.opaque_owner = True
 
     # -- helpers -----------------------------------------------------------------------------------
     def T(self, node):
@@ -561,12 +570,24 @@ class FnTranslator:
             out += self.flush()
             out.append('%s* %s = %s;' % (self.ctype(t[1]), nm, a))
             return out
+        if t[0] == 'rec' and self.U.mode == 'modular' and hasattr(self.U, 'opaque_record') and self.U.opaque_record(t[1]) and t[1].endswith('sqlite_transaction'):
+            # RAII transaction guard over the SQL connection: outside the translatable subset (C14 is not claimed);
+            # the object is dropped, calls on it go to contract stubs without receiver
+            self.local_names[c['id']] = (nm, ('opaque', t[1]))
+            self.hit('opaque-local(dropped):sqlite_transaction')
+            return ['/* %s %s: opaque RAII object dropped */' % (t[1], nm)]
         if t[0] == 'opaque':
             # lambdas stored in a local (make_err_message) and similar: remember, emit nothing
             if inits and self._find(inits[0], 'LambdaExpr'):
                 self.lambda_bodies[c['id']] = self._find(inits[0], 'LambdaExpr')
                 self.hit('lambda-local(dropped)')
                 return []
+            if self.U.mode == 'modular' and (not inits or inits[0]['kind'] in ('CXXConstructExpr', 'CXXTemporaryObjectExpr', 'ExprWithCleanups')) and 'sqlite_transaction' in t[1]:
+                # RAII transaction guard over the SQL connection: outside the translatable subset (C14 is not claimed);
+                # the object is dropped, calls on it go to contract stubs without receiver
+                self.local_names[c['id']] = (nm, t)
+                self.hit('opaque-local(dropped):sqlite_transaction')
+                return ['/* %s %s: opaque RAII object dropped */' % (t[1], nm)]
             raise Unsupported('local of opaque type %s in %s' % (t[1], self.key))
         if not inits:
             out.append(self.decl(t, nm) + ';')
@@ -926,6 +947,9 @@ class FnTranslator:
         return n['value']
 
     def e_CXXThisExpr(self, n):
+        if getattr(self, 'opaque_owner', False):
+            self.hit('opaque-this(null handle)')
+            return '0'        # `this` of an unrepresentable class: only ever handed to contract stubs, never dereferenced
         return 'self'
 
     def e_DeclRefExpr(self, n):
@@ -998,6 +1022,8 @@ class FnTranslator:
             tn = self.tmp()
             self.pre.append('%s = %s;' % (self.decl(t, tn), v))
             return tn
+        if k == 'CallExpr' and self._callee_name(n) in ('move', 'forward') and self._is_std_callee(n):
+            return self.lv(n['inner'][1])
         if k in ('CXXOperatorCallExpr', 'CXXMemberCallExpr', 'CallExpr'):
             t = self.T(n)
             if n.get('valueCategory') in ('lvalue', 'xvalue'):
@@ -1198,6 +1224,9 @@ class FnTranslator:
         if t[0] in ('str', 'opt'):
             return '(%s){0}' % self.ctype(t)
         if t[0] == 'rec':
+            dc = self.U.find_ctor(t[1], 'void ()')
+            if dc is not None:
+                return '%s()' % self.U.ctor_fn(t[1], dc)
             return '%s()' % self.U.default_fn(t)
         if t[0] == 'pair':
             return '(%s){0}' % self.ctype(t)
@@ -1211,6 +1240,8 @@ class FnTranslator:
         if n.get('elidable') and len(args) == 1 and '&&' not in ctor_t:
             return self.rvalue_for(args[0], ct)
         if not args:
+            if ct[0] == 'rec' and self.U.find_ctor(ct[1], 'void ()') is not None:
+                return '%s()' % self.U.ctor_fn(ct[1], self.U.find_ctor(ct[1], 'void ()'))
             if n.get('zeroing') or n.get('list'):
                 if ct[0] == 'rec':
                     return '%s()' % self.U.default_fn(ct, zero=True)
@@ -1266,7 +1297,16 @@ class FnTranslator:
         if ct[0] == 'rec':
             if ct[1] in self.P.exc_parent:
                 return '/*exception object*/0'
-            raise Unsupported('user constructor of %s' % ct[1])
+            ctor = self.U.find_ctor(ct[1], ctor_t)
+            if ctor is None:
+                raise Unsupported('user constructor of %s (%s)' % (ct[1], ctor_t))
+            fn = self.U.ctor_fn(ct[1], ctor)
+            ptypes = [self.P.typeof(c) for c in ctor.get('inner', []) or [] if c.get('kind') == 'ParmVarDecl']
+            cargs = []
+            for a, pt in zip(args, ptypes):
+                cargs.append(self.addr(a) if pt[0] == 'ref' else self.rvalue_for(a, pt))
+            self.hit('user-constructor')
+            return '%s(%s)' % (fn, ', '.join(cargs))
         raise Unsupported('construct %r from %d args in %s' % (ct, len(args), self.key))
 
     def convert_scalar(self, v, frm, to):
@@ -1441,6 +1481,25 @@ class FnTranslator:
             a = [self.ex(x) for x in args]
             self.U.need_model('mem')
             return 'verif_memcpy(%s, %s, %s)' % tuple(a)
+        if name in ('memmove',):
+            a = [self.ex(x) for x in args]
+            self.U.need_model('mem')
+            return 'verif_memcpy(%s, %s, %s)' % tuple(a)
+        if name == 'strncpy':
+            a = [self.ex(x) for x in args]
+            self.U.need_model('mem')
+            return 'verif_strncpy((char*)%s, (const char*)%s, %s)' % tuple(a)
+        if name == 'memset':
+            a = [self.ex(x) for x in args]
+            self.U.need_model('mem')
+            return 'verif_memset(%s, %s, %s)' % tuple(a)
+        if name in ('copy', 'copy_n') and len(args) == 3:
+            # std::copy(first, last, out) / std::copy_n(first, n, out) over raw pointers / vector iterators of bytes
+            self.U.need_model('mem')
+            a = [self.ex(x) for x in args]
+            if name == 'copy':
+                return '((void)verif_memcpy(%s, %s, sizeof(*(%s)) * (size_t)((%s) - (%s))), (%s) + ((%s) - (%s)))' % (a[2], a[0], a[0], a[1], a[0], a[2], a[1], a[0])
+            return '((void)verif_memcpy(%s, %s, sizeof(*(%s)) * (size_t)(%s)), (%s) + (%s))' % (a[2], a[0], a[0], a[1], a[2], a[1])
         if name in ('max', 'min'):
             t = strip_ref(self.T(n))
             a, b = self.ex(args[0]), self.ex(args[1])
@@ -1605,6 +1664,11 @@ class FnTranslator:
         mid = me.get('referencedMemberDecl')
         if mid in self.P.fn_qname:
             key = self.P.fn_qname[mid]
+            fnode = self.P.by_id.get(mid, (None, None))[0]
+            callee_is_method = FnTranslator(self.P, self.U, key, fnode).is_method if fnode is not None else True
+            if not callee_is_method:
+                self.hit('opaque-receiver(dropped)')
+                return self.user_call(key, args, None, n, discard)
             if optr is None:
                 optr = self.addr(obj)
             return self.user_call(key, args, optr, n, discard)
@@ -1715,8 +1779,10 @@ class FnTranslator:
         rd = c['referencedDecl']
         op = rd['name']
         self.hit('operator:' + op)
-        if rd['id'] in self.P.fn_qname and self.P.fn_qname[rd['id']] in self.P.functions:
-            # user-defined operator (e.g. operator== of a blob struct)
+        if rd['id'] in self.P.fn_qname and self.P.fn_qname[rd['id']] in self.P.functions and not (
+                op == 'operator=' and self.P.functions[self.P.fn_qname[rd['id']]].get('isImplicit')):
+            # user-defined operator (e.g. operator== of a blob struct); the compiler-generated copy/move assignment is
+            # a memberwise assignment and is lowered as such below
             key = self.P.fn_qname[rd['id']]
             fn = self.P.functions[key]
             if FnTranslator(self.P, self.U, key, fn).is_method:
